@@ -485,7 +485,7 @@ pub fn finish(
     dev_ran: bool,
 ) -> Final {
     let id = m.id();
-    let known = load_known(&format!("{}/known_findings.txt", verif_dir));
+    let known = load_known(&std::env::var("SFV_KNOWN").unwrap_or_else(|_| format!("{}/known_findings.txt", verif_dir)));
     let mut matched: BTreeSet<usize> = BTreeSet::new();
     let mut fresh: Vec<&Viol> = vec![];
     for v in &st.viols {
